@@ -280,7 +280,7 @@ def run(ctx):
                           {"corruptions": labels, "storage": real_spec(st), "model_storage": sexp.dumps(model_storage(st))})
         big_manifest_part(ctx, sb)
         age_part(ctx, sb)
-        if not ctx.violations:
+        if not ctx.has_failing_input():
             build.ensure_vsb()
             e2e_age(ctx, sb)
     finally:
